@@ -8,6 +8,28 @@
 #include "place_global/net_model.hpp"
 
 namespace coloquinte {
+#ifdef COLOQUINTE_VERIF
+#define COLOQUINTE_VERIF_HAS_H5 1
+namespace verif {
+/**
+ * @brief Verification hook (H5): when non-null, called by GlobalPlacer::run
+ * with the quantities that drive its control flow. kind/values:
+ *   "init"  averageCellLength_ lb penalty_ penaltyCutoffDistance_
+ *           approximationDistance_ nextPenaltyUpdateDistance
+ *           distanceTolerance()           once, before the loop
+ *   "step"  step_ lb ub dist gap penalty_ penaltyCutoffDistance_
+ *           approximationDistance_ nextPenaltyUpdateDistance stopReason
+ *           once per loop iteration, when the stop test is evaluated;
+ *           stopReason is the first true clause of the test: 0 none,
+ *           1 no wirelength, 2 gap, 3 distance
+ *   "exit"  step_ reason lb penalty_ penaltyCutoffDistance_
+ *           approximationDistance_ nextPenaltyUpdateDistance
+ *           once, after the loop; reason 0: stop test, 1: step limit
+ */
+extern void (*onGlobalLoop)(const char *kind, const double *values,
+                            int nbValues);
+}  // namespace verif
+#endif
 
 /**
  * @brief Main class for global placement
